@@ -37,6 +37,7 @@ type Env struct {
 	RelayWs string // ws://host:port of the crossbar (real mode only)
 	DS      *deny.Store
 	CS      *ttlcode.CodeStore // mock mode: the API's code store (for counting entries)
+	Stats   *Bearer            // if set: the bearer used to read /status (e.g. one minted by `relay token`)
 	clock   *int64
 }
 
@@ -247,6 +248,9 @@ func (r *Runner) uaString(n int) string { return "verif-" + r.Name + "-ua" + str
 
 // StatsBearer is a genuine relay:stats token for observation.
 func (e *Env) ObserverBearer(scope string) Bearer {
+	if e.Stats != nil && scope == "relay:stats" {
+		return *e.Stats
+	}
 	now := e.Now()
 	return Bearer{Kind: "jwt", Alg: "HS256", Secret: "right", Claims: map[string]interface{}{
 		"scopes": []string{scope}, "aud": []string{e.Cfg.Host}, "iat": now - 100, "nbf": now - 100, "exp": now + 100000}}
